@@ -40,7 +40,20 @@ func script(smt *SMT, o *Obligation, real bool, wantModel bool) string {
 	if wantModel {
 		b.WriteString("(set-option :produce-models true)\n")
 	}
-	b.WriteString(smt.header(real))
+	hdr := smt.header(real)
+	if o.Vacuity {
+		// satisfiability of the precondition is checked without the quantified lemma axioms (they are facts about
+		// uninterpreted helpers and only make the solver answer `unknown`)
+		var keep []string
+		for _, l := range strings.Split(hdr, "\n") {
+			if strings.HasPrefix(l, "(assert ") && quantRe.MatchString(l) {
+				continue
+			}
+			keep = append(keep, l)
+		}
+		hdr = strings.Join(keep, "\n")
+	}
+	b.WriteString(hdr)
 	for _, a := range o.PC {
 		b.WriteString("(assert " + a + ")\n")
 	}
